@@ -84,6 +84,14 @@ def o1_content_addressed(steps, cfg, history):
                     out.append((f"step {st['i']} {show_cmd(st['cmd'])}: object {rel} was deleted by a command that is neither remove nor untrack nor --force", {'kind': 'object-deleted'}))
                 elif n['bytes'] != o['bytes'] or n['ino'] != o['ino']:
                     out.append((f"step {st['i']} {show_cmd(st['cmd'])}: object {rel} was rewritten (bytes or inode changed)", {'kind': 'object-rewritten'}))
+        elif pre is not None and st['cmd']['op'] in ('track', 'carryin') and st['cmd'].get('force'):
+            # `--force` re-commits: it may replace an object by a new file with the same bytes, whatever its exit status;
+            # it is no licence to take content out of the cache (C01/C04: only remove and untrack do that)
+            for rel, o in pre.cache.items():
+                n = post.cache.get(rel)
+                if o['kind'] == 'file' and (n is None or n['bytes'] != o['bytes']) and o['bytes'] is not None:
+                    out.append((f"step {st['i']} {show_cmd(st['cmd'])} (exit {st['rc']}): object {rel} is {'gone' if n is None else 'changed'} after a --force commit",
+                                {'kind': 'object-lost-by-force', 'op': st['cmd']['op']}))
     return out
 
 
